@@ -3,14 +3,15 @@ from circuit_common import *
 PROP = "C03"
 RULE = ("concurrent scripts (callers on clones, polls in any order, cancellations, gated inner outcomes incl. panics, advances hitting the wait boundary, "
         "force_open/force_closed/reset, classifier panics, calls created before and polled after the breaker opened) + half-open bursts (incl. wait 0, slow trials, "
-        "calls admitted while closed completing during the phase) + sequential histories + classifier-panic trials; operator actions through a clone taken before with_fallback; non-trivial = the breaker left Closed at least once")
+        "calls admitted while closed completing during the phase) + sequential histories + classifier-panic trials; operator actions through a clone taken before with_fallback; microsecond scripts with waits that are not whole milliseconds and callers 1 µs before / at / 1 µs after the wait and on the ms boundaries below it; non-trivial = the breaker left Closed at least once")
 
 
 def generate(rng, tier):
     k = 1 if tier == "quick" else 12
     return ([random_concurrent(rng) for _ in range(900 * k)] + [half_open_burst(rng) for _ in range(400 * k)] +
             [random_seq_history(rng) for _ in range(400 * k)] + [multi_phase_burst(rng) for _ in range(200 * k)] +
-            [classifier_panic_trials(rng) for _ in range(60 * k)])
+            [classifier_panic_trials(rng) for _ in range(60 * k)] + [us_wait_boundary(rng) for _ in range(150 * k)] +
+            [random_seq_history(rng, us=True) for _ in range(80 * k)] + [half_open_burst(rng, us=True) for _ in range(80 * k)])
 
 
 def monitor(s, t):
